@@ -494,6 +494,7 @@ func scenPty(out *scenOut, rr *rng, thorough bool) {
 			ptySuspend(out, mode)
 		}
 		ptySizeQueryShapes(out)
+		ptyResizeWhileUpdateBusy(out)
 		ptyResizeBeforeSubscription(out)
 		ptyFilterSeesSizes(out)
 		secondRunTermios(out)
@@ -1182,6 +1183,45 @@ func ptyResizeBeforeSubscription(out *scenOut) {
 	if !ok {
 		out.fail(finding{Property: "C18", Class: "new", What: "a resize between the start-up size query and the listener's subscription to SIGWINCH was never reported: the program keeps a stale size", Input: desc,
 			Expected: "last size 100 30", Observed: fmt.Sprintf("sizes seen: %s (start-up report seen before the resize: %t)", strings.Join(r.sizes(), ", "), got8024)})
+	}
+	r.pair.master.Write([]byte("q"))
+	select {
+	case <-r.exited:
+	case <-time.After(3 * time.Second):
+	}
+}
+
+// ptyResizeWhileUpdateBusy: the terminal is resized (twice) while Update is busy for 0.7 s; when
+// Update returns, the true size is reported - a size report waits for the loop however long that
+// takes (C18: "again after every resize signal").
+func ptyResizeWhileUpdateBusy(out *scenOut) {
+	desc := "Update blocks; resize to 132x43 and then to 101x31 while it is busy for 0.7 s; Update returns"
+	r, err := startPtyChild("default", 80, 24)
+	if err != nil {
+		return
+	}
+	defer r.cleanup()
+	if !r.waitLog("size ", 5*time.Second) {
+		return
+	}
+	time.Sleep(40 * time.Millisecond)
+	r.pair.master.Write([]byte("b"))
+	if !r.waitLog("blocking", 3*time.Second) {
+		return
+	}
+	out.record("resize-while-update-busy", desc)
+	setWinsize(r.pair.master, 132, 43)
+	time.Sleep(350 * time.Millisecond)
+	setWinsize(r.pair.master, 101, 31)
+	time.Sleep(350 * time.Millisecond)
+	os.WriteFile(r.gate, []byte("x"), 0o644)
+	ok := waitFor(3*time.Second, func() bool {
+		s := r.sizes()
+		return len(s) > 0 && s[len(s)-1] == "101 31"
+	})
+	if !ok {
+		out.fail(finding{Property: "C18", Class: "new", What: "a resize that arrived while Update was busy was never reported", Input: desc,
+			Expected: "last size 101 31", Observed: strings.Join(r.sizes(), ", ")})
 	}
 	r.pair.master.Write([]byte("q"))
 	select {
